@@ -8,7 +8,8 @@
    performs them (a verif yield precedes each), and Count as the pure function of the word,
    with the [MxOrig | MxFixed] switch for the defect fixed by commit 8216f43.
    Part 2: a small-step model of threads doing Lock / TryLock / Unlock on one mutex
-   (sync.Mutex re-modelled from the Go source: modelled, not stepped against the runtime).
+   (sync.Mutex modelled from the Go source; stepped on every run against a generated copy of
+   the toolchain's Lock/lockSlow/Unlock/unlockSlow + the real TryLock, C17 stream family "mx").
 
    Definitions only; proofs are in proofs/MutexWordProofs.v. *)
 From Got Require Import Base.
@@ -83,8 +84,10 @@ Fixpoint mx_trylock_env (pc : mx_tlpc) (ws : list Z) : option bool * list Z :=
 
 (* ------------------------------------------------------------------ Part 2: threads on one mutex *)
 
-(* sync.Mutex (Go 1.23 sync/mutex.go: Lock, lockSlow, Unlock, unlockSlow) re-modelled, one step
-   per access of m.state / per semaphore call, plus loom's TryLock (the three steps of part 1).
+(* sync.Mutex (Go 1.23 sync/mutex.go = Go 1.26 internal/sync/mutex.go: Lock, lockSlow, Unlock,
+   unlockSlow) modelled, EXACTLY one step per access of m.state (atomic or plain read) / per
+   semaphore call, the local computation after an access belonging to its step (this granularity
+   is what vlib/c17mx.py steps against the source), plus loom's TryLock (the three steps of part 1).
    The word is kept as a record of its fields; [mx_enc] is its int32 value, and
    MutexWordProofs.mx_trylock_rec_refines shows that the record-level TryLock steps are exactly
    [mx_trylock_step] on the encoded word.
